@@ -387,8 +387,8 @@ def cases(tier, rng, escalate):
                     strategies = []
                     if len(frames) <= 1 and len(chunks) <= 2:
                         strategies += [list(p) for n in (1, 2) for p in itertools.product(ACTS, repeat=n)
-                                       if rng.random() < (1.0 if thorough else 0.12)]
-                    for _ in range(6 if thorough else 3):
+                                       if rng.random() < (1.0 if thorough else 0.25)]
+                    for _ in range(6 if thorough else 4):
                         strategies.append(random_acts(rng, rng.randint(1, len(frames) + 4)))
                     # the well-behaved handler: one generator for everything / one generator per request
                     strategies.append([[0, []]] * (len(frames) + 2))
